@@ -67,6 +67,16 @@ def generate(api):
             and not lam.args.vararg and not lam.args.kwarg and not lam.args.kwonlyargs and not lam.args.posonlyargs):
         raise P.Untranslatable("%s: _sort_listeners: key is not a one-argument lambda" % rel)
     key = _key_expr(lam.body, lam.args.args[0].arg, P, rel)
+    # the comment quotes the key with its parameter called `t`, whatever the source calls it
+    import copy
+    lam = copy.deepcopy(lam)
+    old = lam.args.args[0].arg
+    if old != "t" and any(isinstance(n, ast.Name) and n.id == "t" for n in ast.walk(lam.body)):
+        raise P.Untranslatable("%s: _sort_listeners: the key uses a variable `t` that is not its parameter" % rel)
+    for n in ast.walk(lam):
+        if isinstance(n, ast.Name) and n.id == old:
+            n.id = "t"
+    lam.args.args[0].arg = "t"
 
     # add_listener: the default of `priority` is the priority a listener is filed under - the body must use the
     # parameter as it is (strict: the whole body is the modelled bucket insertion)
